@@ -626,3 +626,51 @@ Proof. unfold key_string. induction k as [|x r IH]; intros Hne H; [contradiction
   - cbn [join]. apply split_slash_free. exact Hx.
   - change (join "/" (x :: y :: r')) with (String.append x (String.append "/" (join "/" (y :: r')))).
     rewrite (split_slash_app _ _ Hx), IH; [reflexivity | discriminate | exact Hr]. Qed.
+
+(* every key the layout function produces, written as a "/"-joined string, splits back into its components *)
+Definition good_key (k : key) : Prop := k <> [] /\ forallb slash_free k = true.
+
+Lemma slash_free_append a b : slash_free (a ++ b)%string = slash_free a && slash_free b.
+Proof. induction a as [|c r IH]; cbn; [reflexivity|]. rewrite IH. apply andb_assoc. Qed.
+
+Lemma slash_free_join_zeros shape : slash_free (join "." (map dec (zeros shape))) = true.
+Proof. unfold zeros. induction shape as [|n r IH]; [reflexivity|]. cbn [map]. rewrite dec_0.
+  destruct r as [|m r']; [reflexivity|].
+  change (join "." ("0" :: map dec (map (fun _ => 0) (m :: r')))) with (String.append "0" (String.append "." (join "." (map dec (map (fun _ => 0) (m :: r')))))).
+  rewrite !slash_free_append, IH. reflexivity. Qed.
+
+Lemma good_chunk_key f shape : good_key (chunk_key (array_enc f) (zeros shape)).
+Proof. destruct f; cbn [array_enc chunk_key]; split; try discriminate.
+  - cbn [forallb]. rewrite andb_true_r. destruct (map dec (zeros shape)) eqn:E; [reflexivity|]. rewrite <- E. apply slash_free_join_zeros.
+  - cbn [forallb]. change (slash_free "c") with true. cbn [andb]. unfold zeros. induction shape as [|n r IH]; [reflexivity|].
+    cbn [map forallb]. rewrite dec_0, IH. reflexivity. Qed.
+
+Lemma good_array_keys f a : Forall (fun kv => good_key (fst kv)) (array_keys f a).
+Proof. unfold array_keys. apply Forall_app. split.
+  - destruct f; repeat constructor; cbn; discriminate.
+  - destruct (has_zero (a_shape a)); [constructor|]. constructor; [apply good_chunk_key | constructor]. Qed.
+
+Lemma good_prefix n ks : slash_free n = true -> Forall (fun kv => good_key (fst kv)) ks -> Forall (fun kv => good_key (fst kv)) (prefix n ks).
+Proof. intros Hn H. unfold prefix. apply Forall_forall. intros kv Hin. apply in_map_iff in Hin. destruct Hin as [x [<- Hx]].
+  rewrite Forall_forall in H. destruct (H x Hx) as [_ Hg]. cbn [fst]. split; [discriminate|].
+  change (forallb slash_free (n :: fst x)) with (slash_free n && forallb slash_free (fst x)).
+  apply andb_true_iff. split; assumption. Qed.
+
+Lemma names_slash_free_group a ch : names_slash_free (JG a ch) = true ->
+  forall nm c, In (nm, c) ch -> slash_free nm = true /\ names_slash_free c = true.
+Proof. cbn [names_slash_free]. induction ch as [|[n0 c0] r IH]; intros H nm c Hin; [destruct Hin|].
+  apply andb_true_iff in H. destruct H as [H Hr]. apply andb_true_iff in H. destruct H as [Hn Hc].
+  destruct Hin as [E|Hin]; [inversion E; subst; split; assumption | apply (IH Hr nm c Hin)]. Qed.
+
+Lemma good_keys_of f : forall t, names_slash_free t = true -> Forall (fun kv => good_key (fst kv)) (keys_of_jtree f t).
+Proof. induction t as [a|a ch IH] using jnode_ind'; intro H; [apply good_array_keys|].
+  rewrite keys_of_group. apply Forall_app. split; [destruct f; repeat constructor; cbn; discriminate|].
+  pose proof (names_slash_free_group _ _ H) as Hg. clear H. unfold blocks.
+  induction ch as [|[n c] r IHr]; cbn [flat_map fst snd]; [constructor|].
+  inversion IH as [|? ? I1 I2]; subst. apply Forall_app. split.
+  - destruct (Hg n c (or_introl eq_refl)) as [Hn Hc]. apply good_prefix; [exact Hn | apply I1; exact Hc].
+  - apply IHr; [exact I2|]. intros nm c' Hin. apply Hg. right. exact Hin. Qed.
+
+Theorem keys_strings_split f t : names_slash_free t = true ->
+  Forall (fun kv => split_slash (key_string (fst kv)) = fst kv) (keys_of_jtree f t).
+Proof. intro H. eapply Forall_impl; [|apply (good_keys_of f t H)]. intros kv [Hne Hs]. apply split_join_key; assumption. Qed.
